@@ -210,7 +210,9 @@ def main(tier):
                     jobs.append((lang, engine, prefs, corp[i:i + 400]))
     # boundary ladder for the numeric preferences (tag generation computes relative/rounded values from them): one preference at a time
     # away from its default, both engines, on the expressions that exercise pitch/rate/pause/volume changes
-    LADDER = ["-100", "-50", "-10", "-2", "-1", "0", "1", "2", "5", "10", "50", "99", "100", "101", "150", "400", "1000"]
+    LADDER = ["-100", "-50", "-10", "-2", "-1", "0", "1", "2", "5", "10", "50", "99", "100", "101", "150", "400", "1000",
+              # what the number parser also accepts: not-a-number, infinities, huge and tiny magnitudes, a negative zero, exponent notation
+              "NaN", "inf", "-inf", "1e400", "1e30", "1e-30", "-0", "3.7e2", "0.001"]
     small = [c for c in corp if c[0].startswith("caps:")] + corp[:6]
     nl = 0
     for k in ("Rate", "Pitch", "Volume", "PauseFactor", "MathRate", "CapitalLetters_Pitch"):
@@ -231,6 +233,18 @@ def main(tier):
         for prefs in ([bm, sets[-1]] if tier == "thorough" else [sets[-1]]):
             for i in range(0, len(tc), 250):
                 jobs.append(("en", engine, prefs, tc[i:i + 250]))
+    # author ids that are not 'n7'-like names: one character (a letter, a digit, an operator character the speech tables know),
+    # blanks, quotes, XML-special and non-ASCII characters - as bookmark names they must come back verbatim (escaped as XML requires)
+    import html
+    odd = []
+    for i_, idv in enumerate(["+", "a", "x", "2", "\u00e9", "a b", "<", "&", "'", "\u03b1", "=", "A", "-", "1.5", "cap"]):
+        e_ = html.escape(idv, quote=True)
+        odd.append((f"oddid:{i_}", f'<math><mrow id="{e_}"><mi id="{e_}{e_}">y</mi><mo>=</mo><mfrac id="f{e_}"><mn id="{e_}1">1</mn><mi>A</mi></mfrac></mrow></math>'))
+        odd.append((f"oddid-leaf:{i_}", f'<math><mi id="{e_}">x</mi></math>'))
+    run.count("odd_author_id_documents", len(odd))
+    for engine in ("SSML", "SAPI5"):
+        jobs.append(("en", engine, bm, odd))
+        jobs.append(("es", engine, bm, odd))
     outs = []
     for _ in range(2):
         mcx._worker_mc = mcx.Mc()
@@ -250,7 +264,7 @@ def main(tier):
         rule=f"terms: spine terms of G to depth {'1' if tier == 'quick' else '2'}, the trigger terms and 6 capital/chemistry/long-row terms; languages "
              f"{langs}; engines SSML and SAPI5 (each compared with engine none in the same session); preference sets: defaults, each of "
              "Rate{90,300} Pitch{20} Volume{50} PauseFactor{0,300} MathRate{150} CapitalLetters_Pitch{30} CapitalLetters_Beep CapitalLetters_UseWord{false} Bookmark; "
-             "plus a 17-step boundary ladder (-100 .. 1000) for each of the six numeric preferences alone and combined with one other pitch setting, both engines, on the capital-letter expressions; "
+             "plus a 26-step boundary ladder (-100 .. 1000, NaN, infinities, huge / tiny magnitudes, exponent notation) for each of the six numeric preferences alone and combined with one other pitch setting, both engines, on the capital-letter expressions; "
              "alone, all together; the MathML inputs of the repository's own tests (inputs only) in English with all preferences set together, both engines" + (", and every pair" if tier == "thorough" else "") + ". distinct_nontrivial = distinct (language, engine, preference set, marked-up speech) results",
         assumptions=["word comparison ignores white space and the pause punctuation , ; and reads 'eigh' as the letter a (rule files spell the letter only when an engine can)",
                      "tag vocabularies are those of SSML 1.1 and SAPI5 XML TTS"],
